@@ -196,7 +196,7 @@ PROPS = {
         "timeout": {"quick": 300, "thorough": 3000},
     },
     "C12": {
-        "suites": ["c12"],
+        "suites": ["c12", "c15"],
         "assumptions": COMMON_ASSUME + [
             "the thrift encodings are those of Tally/Model/Thrift.lean (C16: byte-for-byte differential against the generated client); sizes in the spec are measured with that codec on the received bytes",
             "a metric's charge is fixed at allocation and value-independent, so 'charged >= bytes with the worst value of its kind' per metric + 'reserved overhead >= everything that is not a metric' + 'charges of a batch <= freeBytes' are judged per datagram; together they imply the bound for every batch composition (theorem datagram_le_max)",
